@@ -832,7 +832,38 @@ def _mod_types(interp, m):
     _ext_default_getter(m, "types")
 
 
+def _mod_typing(interp, m):
+    def get_args(i, a, k, n):
+        v = a[0]
+        if isinstance(v, Obj) and v.cls.name == "_GenericAlias":
+            return v.fields["__args__"]
+        if isinstance(v, Ext):
+            return i.ext_child(v, ".__args__")
+        return ()
+
+    def get_origin(i, a, k, n):
+        v = a[0]
+        if isinstance(v, Obj) and v.cls.name == "_GenericAlias":
+            return v.fields["__origin__"]
+        if isinstance(v, Ext):
+            return i.ext_child(v, ".__origin__", maybe_none=True)
+        return None
+
+    m.ns["get_args"] = BuiltinV("typing.get_args", get_args)
+    m.ns["get_origin"] = BuiltinV("typing.get_origin", get_origin)
+    _ext_default_getter(m, "typing")
+
+
+def generic_alias(interp, origin, args):
+    cls = interp.program.__dict__.get("_alias_cls")
+    if cls is None:
+        cls = ClassV("_GenericAlias", [], {}, None, None, "_GenericAlias")
+        interp.program.__dict__["_alias_cls"] = cls
+    return Obj(cls, {"__origin__": origin, "__args__": args if isinstance(args, tuple) else (args,)})
+
+
 _MODEL_MODULES = {
+    "typing": _mod_typing,
     "inspect": _mod_inspect,
     "functools": _mod_functools,
     "math": _mod_math,
